@@ -61,4 +61,33 @@ def utf32Decode : Bytes → Option Str
   | 0xFF :: 0xFE :: 0 :: 0 :: rest => utf32Body rest
   | _ => none
 
+/-! a decoder for the `utf-16` stream (strict: wants the little-endian byte-order mark the encoder writes;
+surrogate pairs must be complete and in order) -/
+
+def utf16Body : Bytes → Option Str
+  | [] => some []
+  | [_] => none
+  | a :: b :: tl =>
+    let u := a.toNat + 256 * b.toNat
+    if u < 0xD800 ∨ 0xE000 ≤ u then
+      match utf16Body tl with
+      | some s => some (Char.ofNat u :: s)
+      | none => none
+    else if u < 0xDC00 then
+      match tl with
+      | c :: d :: rest =>
+        let l := c.toNat + 256 * d.toNat
+        if 0xDC00 ≤ l ∧ l < 0xE000 then
+          match utf16Body rest with
+          | some s => some (Char.ofNat (0x10000 + (u - 0xD800) * 1024 + (l - 0xDC00)) :: s)
+          | none => none
+        else none
+      | _ => none
+    else none
+
+def utf16Decode : Bytes → Option Str
+  | [] => some []
+  | 0xFF :: 0xFE :: rest => utf16Body rest
+  | _ => none
+
 end PdfVerif.Convert
